@@ -2959,6 +2959,11 @@ func (dsc *dataStoreCommand) setRemove(keyName string, members []string) (output
 		}
 	}
 
+	if removals > 0 && m.count == 0 {
+		// the last member is gone: the key goes with it
+		dsc.ds.data.remove(keyName)
+	}
+
 	output.data = respInt(removals)
 	return
 }
